@@ -307,10 +307,11 @@ func (s *Sim) checkHashDependence(li *ledgerInst, e *Entry, lg ledger.Log, prev 
 type allowance struct {
 	unbounded bool
 	bound     map[string]*big.Int // account -> granted overdraft
+	free      map[string]bool     // accounts granted an unbounded overdraft
 }
 
 func (s *Sim) allowanceFor(li *ledgerInst, e *Entry) (allowance, *OpRecord) {
-	al := allowance{bound: map[string]*big.Int{}}
+	al := allowance{bound: map[string]*big.Int{}, free: map[string]bool{}}
 	switch e.Type {
 	case "NEW_TRANSACTION":
 		op := s.opByMarker(e.Marker)
@@ -325,6 +326,8 @@ func (s *Sim) allowanceFor(li *ledgerInst, e *Entry) (allowance, *OpRecord) {
 				if b, ok := new(big.Int).SetString(op.Op.Cap, 10); ok {
 					al.bound[acctName(op.Op.Src)] = b
 				}
+			case tplFallbackOverdraft:
+				al.free[acctName(op.Op.Src2)] = true
 			case tplRaw:
 				al.unbounded = true // raw scripts are not used for funds checks
 			}
@@ -374,7 +377,7 @@ func (s *Sim) checkFunds(li *ledgerInst, c *chainState, e *Entry) {
 		}
 		c.model[sk].Sub(c.model[sk], p.Amount)
 		c.model[dk].Add(c.model[dk], p.Amount)
-		if !want || p.Source == "world" || p.Amount.Sign() <= 0 || al.unbounded {
+		if !want || p.Source == "world" || p.Amount.Sign() <= 0 || al.unbounded || al.free[p.Source] {
 			continue
 		}
 		floor := new(big.Int)
@@ -1101,6 +1104,10 @@ func (s *Sim) finalC11(li int, name string, c *chainState) {
 			switch o.ErrClass {
 			case "tx:CONFLICT", "store-error", "cancelled", "in-flight-conflict", "dead", "panic":
 				continue
+			case "other":
+				// refused for a reason outside the vocabulary of this oracle (e.g. "the ledger is
+				// shutting down"): a refusal, and nothing says it should have been a conflict
+				continue
 			}
 			if o.success() && o.Op.IK != "" {
 				replayed := false
@@ -1321,7 +1328,7 @@ func opSources(o *OpRecord) []string {
 		switch o.Op.Tpl {
 		case tplWorld, tplSetAccountMeta, tplRaw, tplArith, tplPortionVar, tplMetaVar, tplAssetVar:
 			return nil
-		case tplOrdered, tplMax, tplOrderedVars:
+		case tplOrdered, tplMax, tplOrderedVars, tplFallbackOverdraft:
 			return []string{acctName(o.Op.Src), acctName(o.Op.Src2)}
 		case tplBalance:
 			return []string{acctName(o.Op.Src2)}
